@@ -125,8 +125,16 @@ def run(ctx):
                 tmpl = ' | '.join('{%s}' % f for f in hdr) + '\n'
                 pro = rng.choice([None, 'START\n'])
                 epi = rng.choice([None, 'END\n'])
-                compare('teetext', T, lambda p: etl.teetext(T, p, encoding='utf-8', template=tmpl, prologue=pro, epilogue=epi),
-                        lambda p: etl.totext(T, p, encoding='utf-8', template=tmpl, prologue=pro, epilogue=epi), dict(template=tmpl, prologue=pro, epilogue=epi), nt)
+                tenc = rng.choice(['utf-8', 'utf-8', 'utf-16', 'utf-8-sig'])
+                if hdr and rng.random() < 0.3 and all(len(r) == len(hdr) for r in T[1:]):
+                    # a format spec that itself refers to a field, conversions and alignments
+                    tmpl = '{%s!r:>{%s!s}.3}|' % (hdr[0], hdr[0]) + ' | '.join('{%s!s:<4}' % f for f in hdr[1:]) + '\n' \
+                        if all(isinstance(r[0], int) and not isinstance(r[0], bool) and 0 < r[0] < 9 for r in T[1:]) else tmpl
+                compare('teetext', T, lambda p: etl.teetext(T, p, encoding=tenc, template=tmpl, prologue=pro, epilogue=epi),
+                        lambda p: etl.totext(T, p, encoding=tenc, template=tmpl, prologue=pro, epilogue=epi), dict(template=tmpl, prologue=pro, epilogue=epi, encoding=tenc), nt)
+                H = [list(hdr)]
+                compare('teetext', H, lambda p: etl.teetext(H, p, encoding=tenc, template=tmpl, prologue=pro, epilogue=epi),
+                        lambda p: etl.totext(H, p, encoding=tenc, template=tmpl, prologue=pro, epilogue=epi), dict(template=tmpl, prologue=pro, epilogue=epi, encoding=tenc, header_only=True), False)
             cap = rng.choice([None, 'cap'])
             compare('teehtml', T, lambda p: etl.teehtml(T, p, encoding='utf-8', caption=cap),
                     lambda p: etl.tohtml(T, p, encoding='utf-8', caption=cap), dict(caption=cap), nt)
